@@ -21,8 +21,12 @@ structure StBlank (st : St K F E) : Prop where
 
 theorem StBlank.empty : StBlank (St.empty : St K F E) := ⟨fun _ => rfl, fun _ => rfl, fun _ => rfl⟩
 
-theorem StBlank.cleared {st : St K F E} (h : StBlank st) : StBlank (cleared st) :=
-  ⟨fun _ => rfl, h.errors, h.all⟩
+theorem StBlank.cleared {st : St K F E} (_h : StBlank st) : StBlank (cleared st) :=
+  ⟨fun _ => rfl, fun _ => rfl, fun _ => rfl⟩
+
+/-- `register` leaves nothing behind, whatever had been looked up before (C05, table level) -/
+theorem StBlank.of_cleared (st : St K F E) : StBlank (Ovld.cleared st) :=
+  ⟨fun _ => rfl, fun _ => rfl, fun _ => rfl⟩
 
 variable [DecidableEq K] (plan : K → Plan F E)
 
